@@ -97,9 +97,13 @@ def run(ctx):
     importlib.import_module('props.c04file').run(ctx, THEOREM)
     # the two sides of an ON condition: resolve_join_variables of both ports against JoinVars.v (the swap theorem's model)
     importlib.import_module('props.joinvars').run(ctx, THEOREM + ' ; C08_join_sides_swap (JoinVars.v)')
+    # rbql-js: joins over ragged tables, and query_csv with a JOIN against a second CSV file - coverage gaps, notes/covgap.md
+    importlib.import_module('props.cov_jsjoin').run(ctx, THEOREM)
 
 
 def replay(ctx, case):
+    if case.get('part') == 'cov_jsjoin':
+        return importlib.import_module('props.cov_jsjoin').replay(ctx, case, THEOREM)
     if case.get('part') == 'c04csv':
         return importlib.import_module('props.c04csv').replay(ctx, case, THEOREM)
     if case.get('part') == 'joinvars':
